@@ -83,7 +83,10 @@ func (l *Lexer) nextInsideToken() token.Token {
 				tok.Type = "INT"
 			}
 
-			break
+			// readNumber has already moved past the number: the character
+			// after it belongs to the next token
+			tok.LineNumber = line
+			return tok
 		}
 		tok = l.newToken(token.DOT)
 	case '+':
